@@ -292,8 +292,7 @@ theorem unlink_clear_in_place_counterexample :
 
 /-- the same for the non-sharing branch of `link_with` as found -/
 theorem relink_clear_in_place_counterexample :
-    ¬ Inv (((twoStreams.linkShare 1 0 true).linkPlain false 1 1 false false false).massView 1).1.s
-    ∨ ¬ Inv ((((twoStreams.newStream false [] 'l' 0 300 101325 [[4]]).1.linkShare 1 0 true).linkPlain false 1 2 true false
+    ¬ Inv ((((twoStreams.newStream false [] 'l' 0 300 101325 [[4]]).1.linkShare 1 0 true).linkPlain false 1 2 true false
           false).massView 1).1.s :=
   ThermoVerif.FlowViews.relink_clear_in_place_counterexample
 
